@@ -109,7 +109,7 @@ def diff_penalty(m, order=1):
     return D.T @ D
 
 
-def build_model(rng, collide=False):
+def build_model(rng, collide=False, alt=False):
     import jax.numpy as jnp
     import liesel.model as lsl
     import tensorflow_probability.substrates.jax.bijectors as tfb
@@ -137,12 +137,13 @@ def build_model(rng, collide=False):
     kv.parameter = True
     Xv = lsl.obs(jnp.asarray(X), name="X")
     Zv = lsl.obs(jnp.asarray(Z), name="Z")
-    shift = lsl.Calc(lambda k: 0.5 * k, kv, _name="shift")
+    cs, cp = (0.9, 3.0) if alt else (0.5, 2.0)     # alt: same names and shapes, other functions
+    shift = lsl.Calc(lambda k: cs * k, kv, _name="shift")
     mu = lsl.Var(lsl.Calc(lambda X, b, Z, b2, s: X @ b + Z @ b2 + s, Xv, beta, Zv, b2, shift), name="mu")
     scale = lsl.Calc(jnp.sqrt, sigma2, _name="scale")
     yv = lsl.obs(jnp.asarray(y), lsl.Dist(tfd.Normal, loc=mu, scale=scale), name="y")
     # derived quantities that depend on sampled parameters but feed no distribution (predictions, summaries)
-    pred = lsl.Var(lsl.Calc(lambda b, s, b2: jnp.sum(b) * 2.0 + s + jnp.sum(b2 ** 2), beta, sigma2, b2), name="pred")
+    pred = lsl.Var(lsl.Calc(lambda b, s, b2: jnp.sum(b) * cp + s + jnp.sum(b2 ** 2), beta, sigma2, b2), name="pred")
     ksq = lsl.Calc(lambda k, t: k ** 2 + jnp.log(t), kv, tau2, _name="k_sq_plus_log_tau2")
     extra = []
     if collide:
@@ -216,8 +217,19 @@ def case_liesel(case, res):
     tracked = [nm for nm, ns in model.state.items() if ns.value is not None]
     b = gs.EngineBuilder(seed=case["engine_seed"], num_chains=2)
     b.show_progress = False
-    b.set_model(gs.LieselInterface(model))
+    the_iface = gs.LieselInterface(model)
+    b.set_model(the_iface)
     b.set_initial_values(model.state)
+    if case.get("reused_kernels"):
+        # the kernel objects served another model before (same names and shapes, other functions); the user then hands
+        # them this model's interface with set_model
+        other, _ = build_model(rng_for(case["seed"], "c09-other", case["idx"]), collide, alt=True)
+        other_iface = gs.LieselInterface(other)
+        for _blk, k in named:
+            k.set_model(other_iface)
+        for _blk, k in named:
+            k.set_model(the_iface)
+        res.ev("kernels_reused_from_another_model", len(named))
     wrappers = []
     fp_keys = ["beta_value", "sigma2_transformed_value", "tau2_value", "b2_value", "k_value"] + (["beta_value_value"] if collide else [])
     for j, (blk, k) in enumerate(named):
@@ -335,10 +347,40 @@ def case_dict(case, res):
             wk.identifier = f"user{9 - j}_{blk}"
         ws.append((blk, wk))
         b.add_kernel(wk)
-    b.set_epochs(mk_epochs(case["spec"]))
-    eng = b.build()
+    if case.get("direct_sequence"):
+        # the engine is put together by hand from a KernelSequence made from a list; the caller keeps using that list
+        import jax
+        from liesel.goose.engine import Engine
+        from liesel.goose.kernel_sequence import KernelSequence
+
+        iface = gs.DictInterface(lp)
+        klist = [wk for _, wk in ws]
+        for j, wk in enumerate(klist):
+            wk.set_model(iface)
+            if case["idx"] % 2:
+                wk.identifier = f"kernel_{j:02d}"
+        seq = KernelSequence(klist)
+        klist.reverse()
+        klist.pop()
+        init = {"a": jnp.asarray(0.1, jnp.float32), "b": jnp.asarray([0.2, 0.3], jnp.float32), "c": jnp.asarray([0.0, 0.1, -0.2], jnp.float32)}
+        states = jax.tree_util.tree_map(lambda x: jnp.broadcast_to(x, (2,) + jnp.shape(x)), init)
+        eng = Engine(seeds=jax.random.split(jax.random.PRNGKey(case["engine_seed"]), 2), model_states=states, kernel_sequence=seq,
+                     epoch_configs=mk_epochs(case["spec"]), jitted_sample_duration=5, model=iface, position_keys=keys,
+                     show_progress=False)
+        res.ev("hand_built_kernel_sequence_list_mutated_afterwards")
+        got_order = [k.identifier for k in seq.get_kernels()]
+        if got_order != [wk.identifier for _, wk in ws]:
+            res.violation("kernel-order", f"KernelSequence configured as {[wk.identifier for _, wk in ws]} reports the kernels "
+                          f"{got_order} after the caller modified the list it was built from", {"order": [blk for blk, _ in kernels]})
+    else:
+        b.set_epochs(mk_epochs(case["spec"]))
+        eng = b.build()
     eng.sample_all_epochs()
     ti = eng.get_results().transition_infos.combine_all().unwrap()
+    if any(wk.identifier not in ti for _, wk in ws):
+        res.violation("kernel-order", f"transition infos exist for {sorted(ti)} only; configured kernels "
+                      f"{[wk.identifier for _, wk in ws]}", {"order": [blk for blk, _ in kernels]})
+        return
     infos = [ti[wk.identifier] for _, wk in ws]
     entry = [np.asarray(i.entry) for i in infos]
     exit_ = [np.asarray(i.exit) for i in infos]
@@ -371,11 +413,11 @@ def gen_cases(tier, seed):
         spec = [[1, 6, 1], [2, 6, 1], [3, 6, 1], [4, 12, 1]] if i % 2 else [[3, 10, 1], [4, 20, 1]]
         heavy = (cfg["beta"] in ("nuts", "hmc")) + (cfg["sigma2"] == "nuts")
         cases.append({"kind": "liesel", "idx": i, "seed": seed, "cfg": cfg, "spec": spec, "engine_seed": int(rng.integers(2 ** 30)),
-                      "collide": bool(i % 4 == 3), "cost": 10 + 10 * heavy})
+                      "collide": bool(i % 4 == 3), "reused_kernels": bool(i % 3 == 1), "cost": 10 + 10 * heavy})
     for i in range(6 if q else 60):
         rng = rng_for(seed, "c09-gend", i)
         cases.append({"kind": "dict", "idx": 10000 + i, "seed": seed, "spec": [[1, 5, 1], [3, 5, 1], [4, 10, 1]],
-                      "engine_seed": int(rng.integers(2 ** 30)), "cost": 6})
+                      "engine_seed": int(rng.integers(2 ** 30)), "direct_sequence": bool(i % 2), "cost": 6})
     return cases
 
 
